@@ -55,7 +55,9 @@ def gen_span(r: Any, k: int, ids: list[str]) -> Any:
         return r.choice([None, "junk", 7, []])  # not an object at all
     sp: dict[str, Any] = {
         "trace_id": f"tr{k % 3}", "span_id": f"sp{k}", "parent_span_id": r.choice([None, None, ids[-1] if ids else None, ""]),
-        "name": r.choice(["/get", "/put", "op", ""]),
+        # names may hold characters that are line separators to str.splitlines() but not to a text file's line
+        # iteration, and that JSON allows unescaped inside strings (U+2028, U+2029, U+0085)
+        "name": r.choice(["/get", "/put", "op", "", "/get", "/put", "a\u2028b", "x\u0085y", "p\u2029q"]),
         "start_time_unix_nano": str(1_700_000_000_000_000_000 + k) if r.random() < 0.8 else 1000 + k,
         "end_time_unix_nano": str(1_700_000_000_000_000_100 + k) if r.random() < 0.8 else 2000 + k,
     }
@@ -408,7 +410,8 @@ class Impl:
             if per_line:
                 with open(os.path.join(d, "a.json"), "w") as f:
                     for doc in docs:
-                        f.write(json.dumps(doc) + "\n")
+                        # half of the files keep non-ASCII characters raw, as other exporters write them
+                        f.write(json.dumps(doc, ensure_ascii=(k % 2 == 0)) + "\n")
                     f.write(tail)   # exporters often leave an empty or blank last line
             else:
                 # one whole-file document per file; several files in one sub-directory each to fix the order
